@@ -1038,8 +1038,8 @@ class Symex:
         if opname in ("in", "not in"):
             if not isinstance(a, Atom):
                 return NotImplemented
-            if isinstance(b, str):
-                raise Raised("TypeError", None, node)
+            if isinstance(b, str) or (isinstance(b, Atom) and b.attrs.get("_scalar")):
+                raise Raised("TypeError", None, node)    # 'in <string>' / argument is not iterable
             if not isinstance(b, (dict, list, tuple, set, frozenset)) or any(isinstance(e, T) for e in b):
                 return NotImplemented
             r = any(e is a for e in b)
